@@ -97,9 +97,11 @@ AddrConforms ==
 IsWide == tr.w = WCols               \* the roots of Trees are Cols - 1 or Cols + 1 wide
 ScrRows == IF IsWide THEN 1 ELSE Rows
 ScrCols == IF IsWide THEN WCols ELSE Cols
+(* (bound variables instead of LET: TLC evaluates them once) *)
 PaintConforms ==
-  LET want == O!Want(tr, ScrRows, ScrCols)
-  IN O!Judged(want, ScrRows, ScrCols) => O!ScreenConforms(I!ImplScreen(tr, ScrRows, ScrCols), want, ScrRows, ScrCols)
+  \A want \in {O!Want(tr, ScrRows, ScrCols)} : \A shown \in {I!ImplScreen(tr, ScrRows, ScrCols)} :
+    O!Judged(want, ScrRows, ScrCols) =>
+       \A y \in 1..ScrRows : \A x \in 1..ScrCols : O!CellConforms(shown[y][x], want[y][x])
 (* the wide family is inside what the oracle states (nothing is skipped) *)
 WideJudged == IsWide => O!Judged(O!Want(tr, 1, WCols), 1, WCols)
 =============================================================================
